@@ -77,6 +77,21 @@ pub proof fn lemma_mul_cancel(a: FS, b: FS, c: FS)
     lemma_sub_zero_eq(a, b);
 }
 
+// a - x == a - y ==> x == y;   a - k == b - k ==> a == b
+pub proof fn lemma_sub_cancel_left(a: FS, x: FS, y: FS)
+    requires f_sub(a, x) == f_sub(a, y)
+    ensures x == y
+{
+    broadcast use ring_axioms;
+    assert(f_add(f_neg(x), a) == f_add(f_neg(y), a));
+    lemma_add_cancel(f_neg(x), f_neg(y), a);
+    lemma_neg_neg(x); lemma_neg_neg(y);
+}
+pub proof fn lemma_sub_cancel_right(a: FS, b: FS, k: FS)
+    requires f_sub(a, k) == f_sub(b, k)
+    ensures a == b
+{ lemma_add_cancel(a, b, f_neg(k)); }
+
 // ---------- dot / msm ----------
 pub proof fn lemma_dot_ext(a: Seq<FS>, a2: Seq<FS>, s: Seq<FS>, s2: Seq<FS>, n: nat)
     requires n <= a.len(), n <= a2.len(), n <= s.len(), n <= s2.len(),
